@@ -90,8 +90,15 @@ def main():
                       " ".join(f"{p}:exit{e['exit']}" + (f"[{e['classes'][0]}]" if e.get('classes') else "") for p, e in row["checks"].items()), flush=True)
             finally:
                 sh(["git", "-C", REPO, "worktree", "remove", "--force", f"{tmp}/repo"])
+        path = f"{VERIF}/seeded/RESULTS.json"
         if not only:
-            json.dump({"tier": tier, "all_checks": run_all, "results": results}, open(f"{VERIF}/seeded/RESULTS.json", "w"), indent=1)
+            json.dump({"tier": tier, "all_checks": run_all, "results": results}, open(path, "w"), indent=1)
+        elif os.path.exists(path):
+            # a partial re-run replaces the rows of the changes it covered
+            old = json.load(open(path))
+            fresh = {r["seeded"]: r for r in results}
+            old["results"] = [fresh.pop(r["seeded"], r) for r in old["results"]] + list(fresh.values())
+            json.dump(old, open(path, "w"), indent=1)
         print(f"selftest: {len(results) - missed}/{len(results)} seeded changes caught by the check of the property they break")
         return 1 if missed else 0
     finally:
